@@ -1132,7 +1132,10 @@ def _run(rep, repo, tier, cse):
         results = [_task(t) for t in tasks]
     for t, (st, payload) in zip(tasks, results):
         if st != 'ok':
-            raise AnalysisBroken('%r: %s' % (t, payload))
+            # one context that cannot be analysed must not hide what the others (and the parser rules) found: the check ends
+            # analysis-broken unless a violation is reported elsewhere
+            rep.defer_broken(AnalysisBroken('%r: %s' % (t, payload)))
+            continue
         for it in payload:
             rep.inst(*it[:6], nontrivial=it[6], fact=it[7])
     for rule, n in (('R-LOOPVAR', 12), ('R-CURSOR', 15), ('R-OPSBITS', 18), ('R-VAARG', 25), ('R-PERCENT', 1), ('R-WIDE', 1),
